@@ -33,6 +33,23 @@ CLAIMS = {
         technique="static analysis: vocabulary check + finite-domain abstract evaluation of __getitem__ + symbolic ceiling-division identity (ast)",
         ref="DESIGN.md §3 C13",
     ),
+    "C12": dict(
+        text=(
+            "Decides C12 operator-by-operator by finite-domain abstract evaluation of the source: (OPC-6/6A) every "
+            "operator dunder, then and cond of BoolExpr, IntExpr and the four array classes is evaluated on abstract "
+            "leaves for (array, array), (array, scalar), (array, literal) operands; the result must be an array of the "
+            "same shape whose element i has the reference denotation A[i] op B[i] with operand order preserved, for all "
+            "truth assignments / all order patterns / symbolic integers; (TYP) wrong-kind expressions, arrays and Python "
+            "literals and mis-shaped arrays must be rejected (NotImplemented from dunders, an exception elsewhere); "
+            "(OPC-5) is_bool_op, is_int_op, _make_bool_expr, _make_int_expr and _elementwise accept exactly each operator's "
+            "reference signature (all kind vectors up to arity 3); (OPC-7/AGG) count_true, fold_or, fold_and, alldifferent "
+            "on every mix of literals, expressions, arrays and nestings up to 3 items incl. empty forms; conv2d windows and "
+            "shapes; four_neighbors = in-bounds orthogonal neighbours with sibling order agreement."
+        ),
+        note="Trusted: the abstract evaluator and the reference table REF; the element kernel is uniform in the element index (two-element arrays) and conv2d/four_neighbors are judged on arrays up to 3x3/2x4.",
+        technique="static analysis: finite-domain abstract evaluation of operator methods against a reference denotation (ast)",
+        ref="DESIGN.md §3 C12",
+    ),
 }
 
 NOT_APPLICABLE = {
